@@ -201,7 +201,203 @@ fn page_rows_of(pg: &str) -> usize {
     pg.chars().take_while(|c| c.is_ascii_digit()).collect::<String>().parse().unwrap()
 }
 
+// ------------------------------------------------------------------ encoding × type grid files
+//
+// `pg` tokens containing `E` select a second file family: one wide schema whose columns pair a
+// Parquet value ENCODING with an Arrow target type (so that every decoder's value-level
+// `skip` is reached after a prior read and after a prior skip inside a page).
+
+/// (column name, arrow type, explicit encoding, dictionary enabled, nullable)
+fn enc_columns() -> Vec<(String, DataType, Option<parquet::basic::Encoding>, bool, bool)> {
+    use parquet::basic::Encoding as E;
+    let mut v: Vec<(String, DataType, Option<E>, bool, bool)> = vec![("id".into(), DataType::Int32, None, false, false)];
+    let mut add = |name: &str, dt: DataType, e: Option<E>, dict: bool| {
+        v.push((name.to_string(), dt.clone(), e, dict, true));
+        v.push((format!("{}_req", name), dt, e, dict, false));
+    };
+    // integers
+    for (n, dt) in [("i8", DataType::Int8), ("i16", DataType::Int16), ("i32", DataType::Int32), ("i64", DataType::Int64), ("u32", DataType::UInt32), ("u64", DataType::UInt64)] {
+        add(&format!("{}_plain", n), dt.clone(), Some(E::PLAIN), false);
+        add(&format!("{}_delta", n), dt.clone(), Some(E::DELTA_BINARY_PACKED), false);
+        add(&format!("{}_dict", n), dt.clone(), None, true);
+        add(&format!("{}_bss", n), dt, Some(E::BYTE_STREAM_SPLIT), false);
+    }
+    // floats
+    for (n, dt) in [("f32", DataType::Float32), ("f64", DataType::Float64)] {
+        add(&format!("{}_plain", n), dt.clone(), Some(E::PLAIN), false);
+        add(&format!("{}_bss", n), dt.clone(), Some(E::BYTE_STREAM_SPLIT), false);
+        add(&format!("{}_dict", n), dt, None, true);
+    }
+    add("f16_plain", DataType::Float16, Some(E::PLAIN), false);
+    add("f16_bss", DataType::Float16, Some(E::BYTE_STREAM_SPLIT), false);
+    // booleans
+    add("bool_plain", DataType::Boolean, Some(E::PLAIN), false);
+    add("bool_rle", DataType::Boolean, Some(E::RLE), false);
+    // byte arrays × target types
+    for (n, dt) in [
+        ("utf8", DataType::Utf8),
+        ("lutf8", DataType::LargeUtf8),
+        ("view", DataType::Utf8View),
+        ("bin", DataType::Binary),
+        ("lbin", DataType::LargeBinary),
+        ("binview", DataType::BinaryView),
+    ] {
+        add(&format!("{}_plain", n), dt.clone(), Some(E::PLAIN), false);
+        add(&format!("{}_dl", n), dt.clone(), Some(E::DELTA_LENGTH_BYTE_ARRAY), false);
+        add(&format!("{}_db", n), dt.clone(), Some(E::DELTA_BYTE_ARRAY), false);
+        add(&format!("{}_dict", n), dt, None, true);
+    }
+    // fixed-length byte arrays (widths ≤ 8 and > 8), decimals of every physical type
+    for (n, dt) in [
+        ("flba4", DataType::FixedSizeBinary(4)),
+        ("flba16", DataType::FixedSizeBinary(16)),
+        ("flba11", DataType::FixedSizeBinary(11)),
+        ("dec9", DataType::Decimal128(9, 2)),
+        ("dec18", DataType::Decimal128(18, 4)),
+        ("dec28", DataType::Decimal128(28, 3)),
+        ("dec256", DataType::Decimal256(50, 5)),
+    ] {
+        add(&format!("{}_plain", n), dt.clone(), Some(E::PLAIN), false);
+        add(&format!("{}_bss", n), dt.clone(), Some(E::BYTE_STREAM_SPLIT), false);
+        add(&format!("{}_dict", n), dt.clone(), None, true);
+        if !matches!(dt, DataType::Decimal128(9, _) | DataType::Decimal128(18, _)) {
+            add(&format!("{}_db", n), dt, Some(E::DELTA_BYTE_ARRAY), false);
+        } else {
+            add(&format!("{}_delta", n), dt, Some(E::DELTA_BINARY_PACKED), false);
+        }
+    }
+    v
+}
+fn enc_schema() -> Arc<Schema> {
+    Arc::new(Schema::new(enc_columns().into_iter().map(|(n, dt, _, _, nullable)| Field::new(n, dt, nullable)).collect::<Vec<_>>()))
+}
+/// deterministic values: few distinct values for dictionary columns, varying lengths for strings
+fn enc_array(dt: &DataType, nullable: bool, salt: usize, lo: usize, hi: usize) -> ArrayRef {
+    use arrow_array::*;
+    let null = |i: usize| nullable && (i + salt) % 5 == 2;
+    let k = |i: usize| -> i64 { (((i * 37 + salt * 11) % 23) as i64 - 7) * (1 + (i % 3) as i64) };
+    let text = |i: usize| -> String { format!("r{}{}", (i * 7 + salt) % 10, "abcdefghijklmnopqrstuvw".chars().take((i * 5 + salt) % 21).collect::<String>()) };
+    let bytes_n = |i: usize, n: usize| -> Vec<u8> { (0..n).map(|j| ((i * 31 + j * 7 + salt) % 251) as u8).collect() };
+    macro_rules! prim {
+        ($arr:ty, $t:ty) => {
+            Arc::new(<$arr>::from((lo..hi).map(|i| if null(i) { None } else { Some(k(i) as $t) }).collect::<Vec<Option<$t>>>())) as ArrayRef
+        };
+    }
+    match dt {
+        DataType::Int8 => prim!(Int8Array, i8),
+        DataType::Int16 => prim!(Int16Array, i16),
+        DataType::Int32 => prim!(Int32Array, i32),
+        DataType::Int64 => Arc::new(Int64Array::from((lo..hi).map(|i| if null(i) { None } else { Some(k(i) * 1_000_000_007) }).collect::<Vec<_>>())),
+        DataType::UInt32 => Arc::new(UInt32Array::from((lo..hi).map(|i| if null(i) { None } else { Some((k(i) + 50) as u32 * 40_000_000) }).collect::<Vec<_>>())),
+        DataType::UInt64 => Arc::new(UInt64Array::from((lo..hi).map(|i| if null(i) { None } else { Some((k(i) + 50) as u64 * 300_000_000_000_000_000) }).collect::<Vec<_>>())),
+        DataType::Float32 => Arc::new(Float32Array::from((lo..hi).map(|i| if null(i) { None } else { Some(k(i) as f32 * 1.25) }).collect::<Vec<_>>())),
+        DataType::Float64 => Arc::new(Float64Array::from((lo..hi).map(|i| if null(i) { None } else { Some(k(i) as f64 * 1.0e-3) }).collect::<Vec<_>>())),
+        DataType::Float16 => Arc::new(Float16Array::from((lo..hi).map(|i| if null(i) { None } else { Some(half::f16::from_f32(k(i) as f32 * 0.5)) }).collect::<Vec<_>>())),
+        DataType::Boolean => Arc::new(BooleanArray::from((lo..hi).map(|i| if null(i) { None } else { Some((i / 3 + salt) % 2 == 0) }).collect::<Vec<_>>())),
+        DataType::Utf8 => Arc::new(StringArray::from((lo..hi).map(|i| if null(i) { None } else { Some(text(i)) }).collect::<Vec<_>>())),
+        DataType::LargeUtf8 => Arc::new(LargeStringArray::from((lo..hi).map(|i| if null(i) { None } else { Some(text(i)) }).collect::<Vec<_>>())),
+        DataType::Utf8View => Arc::new(StringViewArray::from_iter((lo..hi).map(|i| if null(i) { None } else { Some(text(i)) }))),
+        DataType::Binary => Arc::new(BinaryArray::from_iter((lo..hi).map(|i| if null(i) { None } else { Some(bytes_n(i, (i * 3 + salt) % 17)) }))),
+        DataType::LargeBinary => Arc::new(LargeBinaryArray::from_iter((lo..hi).map(|i| if null(i) { None } else { Some(bytes_n(i, (i * 3 + salt) % 17)) }))),
+        DataType::BinaryView => Arc::new(BinaryViewArray::from_iter((lo..hi).map(|i| if null(i) { None } else { Some(bytes_n(i, (i * 3 + salt) % 17)) }))),
+        DataType::FixedSizeBinary(n) => Arc::new(
+            FixedSizeBinaryArray::try_from_sparse_iter_with_size((lo..hi).map(|i| if null(i) { None } else { Some(bytes_n(i % 9, *n as usize)) }), *n).unwrap(),
+        ),
+        DataType::Decimal128(p, sc) => {
+            let big = if *p > 18 { 10_000_000_000_000_000_000i128 } else if *p > 9 { 1_000_000_000i128 } else { 1 };
+            Arc::new(
+                Decimal128Array::from((lo..hi).map(|i| if null(i) { None } else { Some(k(i) as i128 * big + i as i128 % 7) }).collect::<Vec<_>>())
+                    .with_precision_and_scale(*p, *sc)
+                    .unwrap(),
+            )
+        }
+        DataType::Decimal256(p, sc) => Arc::new(
+            Decimal256Array::from(
+                (lo..hi)
+                    .map(|i| if null(i) { None } else { Some(arrow_buffer::i256::from_i128(k(i) as i128 * 1_000_000_000_000_000_000_000_000_000i128).wrapping_mul(arrow_buffer::i256::from_i128(1_000_000_007))) })
+                    .collect::<Vec<_>>(),
+            )
+            .with_precision_and_scale(*p, *sc)
+            .unwrap(),
+        ),
+        _ => unreachable!("enc type"),
+    }
+}
+fn build_enc_file(sizes: &[usize], pg: &str, offset_index: bool) -> TestFile {
+    use parquet::schema::types::ColumnPath;
+    let rows = page_rows_of(pg);
+    let cols = enc_columns();
+    let mut props = WriterProperties::builder()
+        .set_data_page_row_count_limit(rows.max(1))
+        .set_write_batch_size(rows.clamp(1, 8))
+        .set_dictionary_enabled(false)
+        .set_statistics_enabled(if offset_index { EnabledStatistics::Page } else { EnabledStatistics::Chunk })
+        .set_max_row_group_row_count(Some(1 << 20))
+        .set_offset_index_disabled(!offset_index);
+    if pg.contains('2') {
+        props = props.set_writer_version(WriterVersion::PARQUET_2_0);
+    }
+    for (name, _, enc, dict, _) in &cols {
+        let path = ColumnPath::from(name.as_str());
+        if *dict {
+            props = props.set_column_dictionary_enabled(path.clone(), true);
+        }
+        if let Some(e) = enc {
+            props = props.set_column_encoding(path, *e);
+        }
+    }
+    let schema = enc_schema();
+    let mut buf = Vec::new();
+    let mut w = ArrowWriter::try_new(&mut buf, schema.clone(), Some(props.build())).unwrap();
+    let mut at = 0;
+    for &n in sizes {
+        let mut lo = at;
+        while lo < at + n {
+            let hi = (lo + 8).min(at + n);
+            let arrays: Vec<ArrayRef> = cols
+                .iter()
+                .enumerate()
+                .map(|(c, (_, dt, _, _, nullable))| {
+                    if c == 0 { Arc::new(Int32Array::from((lo..hi).map(|i| i as i32).collect::<Vec<_>>())) as ArrayRef } else { enc_array(dt, *nullable, c, lo, hi) }
+                })
+                .collect();
+            w.write(&RecordBatch::try_new(schema.clone(), arrays).unwrap()).unwrap();
+            lo = hi;
+        }
+        w.flush().unwrap();
+        at += n;
+    }
+    w.close().unwrap();
+    let bytes = Bytes::from(buf);
+    let reader = ParquetRecordBatchReaderBuilder::try_new(bytes.clone()).unwrap().with_batch_size(100_000).build().unwrap();
+    let mut full = vec![];
+    let mut types_ok = true;
+    for b in reader {
+        let b = b.unwrap();
+        // the embedded arrow schema must give back the target types (view types in particular)
+        for (c, (_, dt, _, _, _)) in cols.iter().enumerate() {
+            types_ok &= b.column(c).data_type() == dt;
+        }
+        for i in 0..b.num_rows() {
+            full.push((0..cols.len()).map(|c| arrow_cast::display::array_value_to_string(b.column(c), i).unwrap()).collect::<Vec<_>>());
+        }
+    }
+    // the unrestricted read must equal what was written (rendered the same way)
+    let mut full_ok = types_ok && full.len() == at;
+    if full_ok {
+        for (c, (_, dt, _, _, nullable)) in cols.iter().enumerate().skip(1) {
+            let a = enc_array(dt, *nullable, c, 0, at);
+            for i in 0..at {
+                full_ok &= arrow_cast::display::array_value_to_string(&a, i).unwrap() == full[i][c];
+            }
+        }
+    }
+    TestFile { bytes, full, full_ok, names: cols.into_iter().map(|c| c.0).collect() }
+}
+
 struct TestFile {
+    /// column names (index = position in `full` rows)
+    names: Vec<String>,
     bytes: Bytes,
     /// rendering of every column of every row from an unrestricted read
     full: Vec<Vec<String>>,
@@ -248,7 +444,7 @@ fn build_file(sizes: &[usize], pg: &str, offset_index: bool) -> TestFile {
         }
     }
     let full_ok = full.len() == at && (0..at).all(|i| (0..NCOLS).all(|c| full[i][c] == render_expected(c, i)));
-    TestFile { bytes, full, full_ok }
+    TestFile { bytes, full, full_ok, names: COLS.iter().map(|c| c.to_string()).collect() }
 }
 
 thread_local! {
@@ -259,7 +455,10 @@ fn get_file(sizes_s: &str, pg: &str, offset_index: bool) -> Arc<TestFile> {
     FILES.with(|f| {
         f.borrow_mut()
             .entry(key)
-            .or_insert_with(|| Arc::new(build_file(&parse_list::<usize>(sizes_s), pg, offset_index)))
+            .or_insert_with(|| {
+                let sizes = parse_list::<usize>(sizes_s);
+                Arc::new(if pg.contains('E') { build_enc_file(&sizes, pg, offset_index) } else { build_file(&sizes, pg, offset_index) })
+            })
             .clone()
     })
 }
@@ -434,7 +633,9 @@ fn configure<T>(
     if let Some((_, c)) = t[0].split_once(".c") {
         b = b.with_max_predicate_cache_size(c.parse().unwrap());
     }
-    let cols: Vec<usize> = t[12].split(',').filter(|c| *c != "rn").map(|c| COLS.iter().position(|x| *x == c).unwrap()).collect();
+    let names: Vec<String> = b.schema().fields().iter().map(|f| f.name().clone()).collect();
+    let want: Vec<String> = if t[12] == "*" { names.iter().filter(|n| *n != "rn").cloned().collect() } else { t[12].split(',').map(|c| c.to_string()).collect() };
+    let cols: Vec<usize> = want.iter().filter(|c| *c != "rn").map(|c| names.iter().position(|x| x == c).expect("projected column")).collect();
     b.with_projection(ProjectionMask::roots(&sd, cols))
 }
 
@@ -445,7 +646,9 @@ fn run_read(t: &[&str]) -> ReadOut {
     let file = get_file(t[1], t[2], idx != 0);
     let groups = parse_list::<usize>(t[4]);
     let bs: usize = t[11].parse().unwrap();
-    let proj: Vec<&str> = t[12].split(',').collect();
+    let enc = t[2].contains('E');
+    let proj_owned: Vec<String> = if t[12] == "*" { file.names.clone() } else { t[12].split(',').map(|c| c.to_string()).collect() };
+    let proj: Vec<&str> = proj_owned.iter().map(|c| c.as_str()).collect();
     let mut options = ArrowReaderOptions::new()
         .with_page_index_policy(if idx == 2 { PageIndexPolicy::Optional } else { PageIndexPolicy::Skip });
     if proj.contains(&"rn") {
@@ -608,11 +811,11 @@ fn run_read(t: &[&str]) -> ReadOut {
                     oracle = Some(format!("column {} missing from the batch", name));
                     continue;
                 };
-                let got = render(col, i);
+                let got = if enc && *name != "rn" { arrow_cast::display::array_value_to_string(col, i).unwrap_or("?".into()) } else { render(col, i) };
                 let want = if *name == "rn" {
                     Some(id.to_string())
                 } else {
-                    let c = COLS.iter().position(|x| x == name).unwrap();
+                    let c = file.names.iter().position(|x| x == name).unwrap();
                     file.full.get(id).map(|r| r[c].clone())
                 };
                 if want.as_ref() != Some(&got) {
